@@ -72,8 +72,8 @@ CLAIMED = {
    technique="Coq induction over the chain length for the su(2^n) families + Coq-verified closure oracle as judge over the enumerated range + kernel computation for the refutation",
    design="6 C19"),
  "C20": dict(
-   text="Proof of closure/count preservation + exploration. Proved for every n: any sequence of the optimiser's moves (replace x by x.y for an anticommuting pair of current generators, i.e. an entry of list_connections) preserves the commutator closure and the number of generators, whatever the greedy/random choices (C20_contractions_preserve), and keeps an F2-independent list independent (C20_contractions_keep_independence; of limited use here: a list generating su(2^n) is never F2-independent). Termination of the retry loop, distinctness of the output and the bound 2n+1 are explored: su(2^n) inputs (two-local families, even-k universal sets) at n=3..5 (6) under several random seeds with a watchdog, output judged by the verified closure.",
-   note="Termination, distinctness and the lower bound 2n+1 are observed, not proved (partial). The sequence of contractions chosen by the implementation is not extracted; only its result is judged. No axioms.",
+   text="Proof of closure/count preservation + exploration. Proved for every n: any sequence of the optimiser's moves (replace x by x.y for an anticommuting pair of current generators, i.e. an entry of list_connections) preserves the commutator closure and the number of generators, whatever the greedy/random choices (C20_contractions_preserve), and keeps an F2-independent list independent (C20_contractions_keep_independence; of limited use here: a list generating su(2^n) is never F2-independent). The lower bound is proved: no list of fewer than 2n+1 strings generates all non-identity strings for n>=2 (C20_at_least_2n_plus_1: an F2-independent list never generates its whole span). Termination of the retry loop and distinctness of the output are explored: su(2^n) inputs (two-local families, even-k universal sets) at n=3..5 (6) under several random seeds with a watchdog, output judged by the verified closure.",
+   note="Termination and distinctness are observed, not proved (partial). The sequence of contractions chosen by the implementation is not extracted; only its result is judged. No axioms.",
    technique="Coq invariance proof over arbitrary contraction sequences + seeded exploration judged by the closure oracle",
    design="6 C20"),
  "C14": dict(
